@@ -86,6 +86,7 @@ pub fn check_on(c: &Case, ctx: &mut Ctx, ind: &mut Ind, maxi: &mut Option<Ind>) 
     let mut exact = 0u64;
     let mut cancellation = false;
     for i in 0..len {
+        crate::tele::step(ind, &c.cfg);
         let (out, bar) = if c.scalar {
             let x = c.xs[i].0;
             fp.f(x);
@@ -285,6 +286,9 @@ pub fn run(g: &mut Global) {
     // the same relations after reset() on the same instance(s): resets at multiples of the period, next to them,
     // anywhere, and a second reset before the window refilled
     g.random("resets", g.tier.pick(30000, 300000), &reset_strategy, &check_resets);
+    // identity events (tele.rs): at one or two steps the instance is replaced by its clone, by a used instance
+    // (same or longer periods) that clone_from()s it, or by its serde round trip; nothing may change
+    g.random("events", g.tier.pick(20000, 300000), &|| crate::tele::wrap(strategy(1, 300)), &|t: &crate::tele::TCase<Case>, ctx: &mut Ctx| crate::tele::check_wrapped(t, ctx, if t.case.scalar { t.case.xs.len() } else { t.case.bars.len() }, t.case.cfg.n(), check));
     if g.tier == Tier::Thorough {
         g.random("long", 800, &|| strategy(3000, 8000), &check);
     }
